@@ -17,7 +17,9 @@ CFG = {
     'C18': dict(theorems=['Dlis.C18.logical_files_isolated', 'Dlis.C18.shared_set_rejected',
                           'Dlis.C18.frames_independent', 'Dlis.run_invariants']),
     'C20': dict(theorems=['Dlis.C20.rejected_leaves_objects', 'Dlis.C20.later_copy_numbers_unaffected',
-                          'Dlis.C20.records_unchanged_item', 'Dlis.C20.records_unchanged_origin', 'Dlis.run_invariants']),
+                          'Dlis.C20.records_unchanged_item', 'Dlis.C20.records_unchanged_origin',
+                          'Dlis.C20.history_without_rejected_calls', 'Dlis.C20.rejected_add_origin_is_visible',
+                          'Dlis.C20.rejected_call_on_foreign_set_is_visible', 'Dlis.run_invariants']),
 }
 RULE = ('histories of 3..14 add_* calls over 1..3 logical files: 11 object types + origins, repeated names, explicit '
         'origin references (0, 5, 128), default / shared / per-file set names, rejected calls before (non-str name) and '
@@ -109,6 +111,7 @@ def run_prop(prop, tier):
         if prop == 'C20':
             run_c20_oracle(chk, hists, tmp, model, bres)
             c20_data_stream(chk, tier, tmp)
+            c20_failed_write_stream(chk, tier, tmp)
         if chk.disagreements and not chk.failures and bres.ok:
             # failing-input search: the correspondence is broken; look for a concrete history on which the
             # property itself fails, over a much larger set of histories (oracles only)
@@ -563,6 +566,70 @@ def c20_data_stream(chk, tier, tmp):
         elif s0 == 'ok' and r0[1] != r1[1]:
             chk.fail('rejected:data-registry:bytes', case, 'the file differs from the one written by the same calls without '
                                                            'the rejected ones')
+
+
+def c20_failed_write_stream(chk, tier, tmp):
+    """second half of the property: a write that raises (a dataset missing from the data, an unacceptable chunk size,
+    a breach of high-compatibility mode) leaves the specification able to produce, once the cause is removed, the
+    file a fresh specification produces"""
+    from dliswriter import high_compatibility_mode
+    R = rng('C20', 'failed-write')
+    n = 40 if tier == 'quick' else 400
+    for i in range(n):
+        spec = filegen.gen_spec(R, n_lf=R.choice([1, 1, 2]), small=True, with_index=R.choice([None, 'uniform']))
+        spec['write'].update({'data_kind': R.choice(['dict', 'inline']), 'from_idx': 0, 'to_idx': None, 'input_chunk_size': None,
+                              'output_chunk_size': 2**20})
+        spec['hc'] = False
+        rf = filegen.write(spec, tmp, fname='fw_fresh.dlis')        # a fresh specification, written once
+        if rf['status'] != 'ok':
+            continue
+        fresh = rf['data']
+        st0, b = call(filegen.build, spec)
+        if st0 != 'ok':
+            continue
+        path = f'{tmp}/fw.dlis'
+        causes = []
+        for _ in range(R.choice([1, 1, 2])):
+            cause = R.choice(['missing-dataset', 'bad-output-chunk', 'bad-input-chunk', 'mode-breach', 'unwritable-path'])
+            kw = dict(output_chunk_size=2**20)
+            if spec['write']['data_kind'] == 'dict':
+                kw['data'] = dict(b.data)
+            if cause == 'missing-dataset':
+                if 'data' not in kw or not kw['data']:
+                    continue
+                del kw['data'][sorted(kw['data'])[-1]]
+                st, err = call(b.df.write, path, **kw)
+            elif cause == 'bad-output-chunk':
+                kw['output_chunk_size'] = spec['sul']['max_record_length'] - 2
+                st, err = call(b.df.write, path, **kw)
+            elif cause == 'bad-input-chunk':
+                kw['input_chunk_size'] = 0.5
+                st, err = call(b.df.write, path, **kw)
+            elif cause == 'unwritable-path':
+                st, err = call(b.df.write, f'{tmp}/no/such/dir/x.dlis', **kw)
+            else:
+                def hc_write():
+                    with high_compatibility_mode():
+                        b.df.write(path, **kw)
+                st, err = call(hc_write)
+            causes.append(f'{cause}:{st}{"" if st == "ok" else ":" + str(err)}')
+        kw = dict(output_chunk_size=2**20)
+        if spec['write']['data_kind'] == 'dict':
+            kw['data'] = b.data
+        st2, err2 = call(b.df.write, path, **kw)
+        case = {'index': i, 'spec': filegen.describe(spec), 'earlier_write_attempts': causes}
+        chk.case('failed-write-then-write', nontrivial_key=('fw', i) if any(':err' in c for c in causes) else None,
+                 sample={'index': i, 'attempts': causes, 'final': st2})
+        for c in causes:
+            chk.count('failed-write:' + ':'.join(c.split(':')[:2]))
+        if not any(':err' in c for c in causes):
+            continue
+        if st2 != 'ok':
+            chk.fail('failed-write:blocks-later-write', case, f'after the failed attempts a correct write raises {err2}; a fresh '
+                                                              f'specification writes fine')
+        elif open(path, 'rb').read() != fresh:
+            chk.fail('failed-write:changes-later-file', case, 'after the failed attempts the file differs from the one a fresh '
+                                                              'specification produces')
 
 
 def decoded_inventory_full(recs):
